@@ -431,6 +431,21 @@ def check_bins(ctx, c):
         b = gs.vario_estimate(pos, f, want, latlon=True, geo_scale=R, return_counts=True)
     if not (np.array_equal(a[2], b[2]) and np.allclose(a[0], b[0], rtol=1e-12)):
         ctx.fail({"what": "default-bins!=standard_bins", "geo_scale": R != 1.0}, f"{a[2]} vs {b[2]}")
+        return
+    # a lat-lon *grid* is the set of its nodes: structured and unstructured calls give the same bins (the extremes of the
+    # embedded box are generally not at the lat-lon corners)
+    la = np.sort(rng.uniform(-70, 70, size=int(rng.integers(2, 6))))
+    lo = np.sort(rng.uniform(-175, 175, size=int(rng.integers(2, 6))))
+    if rng.random() < 0.5:
+        la = np.sort(np.concatenate([la, [-30.0, 30.0]]))
+        lo = np.sort(np.concatenate([lo, [-40.0, 40.0]]))
+    grid = np.array(np.meshgrid(la, lo, indexing="ij")).reshape(2, -1)
+    bs = gs.standard_bins((la, lo), latlon=True, geo_scale=R, mesh_type="structured")
+    bu = gs.standard_bins(grid, latlon=True, geo_scale=R)
+    ctx.event("sphere_points", grid.shape[1])
+    if bs.shape != bu.shape or not np.allclose(bs, bu, rtol=1e-12, atol=0):
+        ctx.fail({"what": "standard_bins(latlon,structured)!=bins-of-the-grid-nodes", "geo_scale": R != 1.0},
+                 f"structured: {len(bs) - 1} bins up to {bs[-1]:.6g}; nodes as points: {len(bu) - 1} bins up to {bu[-1]:.6g}")
 
 
 CHECKS = {"embedding": check_embedding, "cov_used": check_cov_used, "haversine": check_haversine, "temporal": check_temporal,
